@@ -1072,8 +1072,8 @@ pub fn generate(tier: &str, rng: &mut Rng) -> Vec<String> {
     let thorough = tier == "thorough";
     let mut out = corpus();
     if thorough {
-        structured(&mut out, rng, 6000, 4, 6);
-        disturbed(&mut out, rng, 40000, 4, 6);
+        structured(&mut out, rng, 10000, 4, 6);
+        disturbed(&mut out, rng, 90000, 4, 6);
         exhaustive(&mut out, 6);
         // every scenario up to length 5 again, with every step / random steps non-quiescent
         let mut ex = Vec::new();
